@@ -465,7 +465,12 @@ TypeOK ==
 (* slow jobs, the signer is asked at most once per validator and epoch.                         *)
 NoDoubleSign == \A x, y \in signReq : (x.v = y.v /\ x.e = y.e) => x.id = y.id
 
-(* S2: Attester.tla's EnvWindow holds at every start of a job function.                         *)
+(* S2: Attester.tla's EnvWindow holds at every start of a job function.  It is NOT implied by    *)
+(* controller + scheduler alone (nothing bounds how late an expired timer's goroutine, or a       *)
+(* ScheduleJob goroutine, gets to run): it is a theorem under the named environment assumptions   *)
+(*   EnvLateness (guard of Advance) with Late <= P   - tight: Late = P + 1 has the counterexample *)
+(*                                                     (MC_Vouch_late_window / _late_sign.cfg)    *)
+(*   EnvNoOverlap (MayBegin), TickFirst, EnvPrepared - inherited from C03 (Controller.tla)        *)
 EnvWindowHolds == ~envViol
 
 (* S3.  A duty slot is attested at most once ...                                                *)
